@@ -163,7 +163,7 @@ def _match(res: list[Any], exp: list[Any]) -> bool:
 def _query(sim: Sim, buf: Any, m: Model, sig: dict[str, Any]) -> None:
     ch = sim.ch
     valid = m.valid_slots()
-    fill = [math.nan, -1.0, None][ch.weighted("fill", [3, 2, 1])]
+    fill = [math.nan, -1.0, None, 0.0][ch.weighted("fill", [3, 2, 1, 2])]
     kw: dict[str, Any] = {"fill_value": fill}
     if not valid:
         r = list(buf.window(None, None, **kw))
